@@ -25,12 +25,14 @@ class C17(pure.Spec):
             "Name selection: the real client (client_main_inner -> ws_connect::handshake) for URL host {IP, name} x "
             "--hostname {none, the certificate's name, another} x --tls-server-name {same three} x skip-verify (36 "
             "configurations, exhaustively) against the TLS listener: reached iff a local connection through the tunnel is echoed. "
-            "Roots exactly as given: a CA file without any certificate (client: nobody is trusted; server: no identity), no CA "
+            "The operator's reload path: the real server_main with a client CA, files rewritten and SIGUSR1 sent to the process "
+            "several times; before and after each reload the certificate seen, whether a client without certificate gets in and "
+            "whether the server asks. Roots exactly as given: a CA file without any certificate (client: nobody is trusted; server: no identity), no CA "
             "file (the system store, which the harness points at root A through SSL_CERT_FILE), a client certificate under "
             "the system root but not under the client CA. Compared exactly with Tls/Model.v. Cells = configuration / script shape.")
     assumptions = ["rustls, webpki and aws-lc-rs decide chain validity, name matching and signatures; the model only says "
                    "which verifier is configured for which arguments",
-                   "SIGUSR1 delivery is not exercised: reload_tls_identity is called directly"]
+                   "SIGUSR1 is sent to the harness process itself (it hosts server_main)"]
 
     def build(self, tier):
         C.cargo_build(os.path.join(C.VERIF, "harness", "app"), "release")
@@ -45,6 +47,8 @@ class C17(pure.Spec):
             return "matrix/" + "/".join(t[2:7])
         if t[1] == "3":
             return "name/" + "/".join(t[2:6])
+        if t[1] == "5":
+            return "sigusr1-reload/" + "/".join(t[2:4])
         if t[1] == "4":
             return "blank-or-default-roots/" + "/".join(t[2:4])
         return "reload/" + "".join(x for x in t[4:24])
@@ -58,6 +62,10 @@ class C17(pure.Spec):
             if i[:1] == ["0"] and m[:1] == ["1"]:
                 return True, "valid-peer-refused", "a correctly authenticated pair cannot connect"
             return True, "certificate-request", "the server asks / does not ask for a client certificate contrary to its configuration"
+        if t[1] == 5:
+            return True, "reload-changes-authentication", ("after replacing the identity at run time (SIGUSR1) the server shows the wrong certificate, stops asking for / "
+                                                           "requiring the client certificate, or refuses the right one: per round [reached with cert, cert seen, reached without cert, asked] "
+                                                           "implementation %s, expected %s" % (impl, model))
         if t[1] == 4:
             return True, "roots-not-as-given", ("with a CA file that holds no certificate (or none given) the peer is not authenticated against exactly the "
                                                 "roots that were given: implementation %s, expected %s" % (impl, model))
@@ -72,6 +80,8 @@ class C17(pure.Spec):
         if t[1] == 1:
             return "%s, name %s, skip-verify %s, %s, server client CA %s" % (
                 SC.get(t[2]), "matches" if t[3] == 0 else "differs", bool(t[4]), CC.get(t[5]), bool(t[6]))
+        if t[1] == 5:
+            return "server_main with a client CA, initial certificate %d, %d reloads by SIGUSR1" % (t[2], t[3])
         if t[1] == 4:
             w = {0: "client given a --tls-ca file without any certificate", 1: "client given no --tls-ca (system store = root A)",
                  2: "server given a client-CA file without any certificate", 3: "client certificate under the system root, server client CA is another CA"}
